@@ -5,13 +5,18 @@ ENGINES = [
      'serves_properties': ['C01', 'C02', 'C03', 'C04', 'C05', 'C06', 'C07', 'C11', 'C12', 'C13',
                            'C14', 'C15', 'C16', 'C17', 'C18', 'C19', 'C20'],
      'kind_free_text': 'contract-based deductive verification: sidecar contracts (vf/contracts) on '
-                       'the real functions; verification conditions generated from the AST of /repo '
+                       'the real functions, at function, block and statement granularity (block and '
+                       'statement contracts carry a fingerprint of the returns and guards that '
+                       'precede them, so code placed in front of a verified block voids the '
+                       'contract instead of hiding behind it); verification conditions generated from the AST of /repo '
                        'on every run (forward symbolic execution, path enumeration, modular calls '
                        'through callee contracts, arrays as store/view comprehensions, sequences of '
                        'arrays, map-append loops, lookup-table indexing, relational two-run '
                        'contracts by self-composition), discharged by z3 (nlsat after Ackermann '
                        'reduction for non-linear real arithmetic) with cvc5 / z3-new as fallback; '
-                       'counter-models replayed on the real code; built-in mutants must be killed '
+                       'counter-models replayed on the real code (functions are called; blocks and '
+                       'statements are re-executed from the real source text in the real module '
+                       'namespace on inputs rebuilt from the model); built-in mutants must be killed '
                        '(thorough tier)'},
     {'name': 'effects', 'path': 'vf/effects',
      'serves_properties': ['C02', 'C06', 'C08', 'C10', 'C12', 'C16', 'C17', 'C18', 'C19', 'C20'],
